@@ -37,7 +37,9 @@ def call_tags(events, timed_out=False, with_index=False):
                 continue
             if what == 'create':
                 if in_txn:
-                    body_open = True      # incr stores inside its transaction: part of the body
+                    if not body_open:
+                        tags.append('TBody')
+                    body_open = True      # a store inside an open transaction (incr, calls inside a block): part of the body
                     continue
                 tags.append('TCreate')
             elif what == 'close':
